@@ -314,6 +314,7 @@ def cross_feed():
     texts = ['p', 'true', 'not p', 'p and q', 'p or q or r', 'p --> q', 'A F G q', 'E (p U q)', 'A (p U q)', 'E F p', 'A G (p --> A F q)', 'E ((X p) and F q)', 'X p', 'p U q',
              'A (p R (X q))', 'E G F p', 'A X A X p', 'not (A G p)', '(p)', '((p))', 'A (F p or G q)', '~p | q & r', 'F G p', 'A', 'E', 'p q', '( p', 'p )', 'A F', 'U p', 'p U', 'not', '',
              '"a b" or p', 'p &', '--> p', 'A E p', 'E A F p', 'A F E G p', 'true U false']
+    texts += [t.replace('p', q, 1) for q in lalr.QUOTED for t in ('p', 'not p', 'p or q', 'A G p', 'E (p U q)', 'p and', 'A p')]
     out = dict(n=0, problems=[])
     for lg in ('PL', 'CTL', 'LTL', 'CTLS'):
         for s in texts:
